@@ -33,6 +33,7 @@ import copy
 import io
 import itertools
 import math
+import os
 import re
 from fractions import Fraction
 
@@ -65,7 +66,7 @@ THEOREMS = [
 RULE = ("ops merge/msplit/split/stats/pipe. Exhaustive: all kernel families of <=3 intervals with endpoints 0..4 "
         "(merge), all power periods in 0..4 x kernel families of <=2 (quick) / <=3 (thorough) intervals over 0..5 "
         "(msplit), all segment lists of <=3 (quick) / <=4 over dur {1,2} x power {0,1,2} (stats), all sample "
-        "sequences of <=3 over times {1,2,3} x watts {0,2} x <=1 (quick) / <=2 kernel over 1..4 (pipe); random: "
+        "sequences of <=3 over times {1,2,3} x watts {0,2} x <=2 (quick) / <=3 kernels over 1..4 (pipe); random: "
         "longer streams on the 1/4 grid with ties, unsorted samples, nested/touching/outside kernels, name/ph "
         "variants, missing keys, ts == 0. Non-trivial: merge with >=2 input intervals; split with >=2 segments; "
         "stats with >=2 non-zero segments; pipe where both scenarios have data. distinct = distinct canonical case")
@@ -312,7 +313,8 @@ def oracle_pipe(events, r):
     kernels = [(c[1], c[2]) for c in cl if c[0] == "K"]
     periods = [(a[0], b[0], a[1]) for a, b in zip(samples, samples[1:]) if b[0] > a[0]]
     if not periods:
-        if r["lines"]:
+        # nothing was sampled: no line at all (the "Insufficient power data" warning) or "No data" lines
+        if any(v is not None for v in r["lines"].values()):
             return ("power-stats-time-partition", f"statistics printed although no power period exists: {r['lines']}")
         return None
     if set(r["lines"]) != {"W", "WO"}:
@@ -358,7 +360,7 @@ def oracle_msplit(ps, pe, v, kernels, segs):
 
 def oracle_merge(periods, merged):
     merged = [(Q(a), Q(b)) for a, b in merged]
-    if any(not a < b for a, b in merged) or any(not x[1] < y[0] for x, y in zip(merged, merged[1:])):
+    if any(not a < b for a, b in merged) or any(not x[1] <= y[0] for x, y in zip(merged, merged[1:])):
         return ("power-stats-merge", f"merged timeline not sorted/disjoint: {merged}")
     g = lcm_den([x for p in periods for x in p] + [Q(1)])
     lo, hi = min(p[0] for p in periods), max(p[1] for p in periods)
@@ -499,7 +501,7 @@ def gen_grid(ctx: Ctx):
     kiv = intervals(1, 4)
     for n in range(0, 4):
         for ss in itertools.product(samp, repeat=n):
-            for kn in range(0, 2 if quick else 3):
+            for kn in range(0, 3 if quick else 4):
                 for ks in itertools.combinations(kiv, kn):
                     evs = [kev(a, b - a) for a, b in ks] + [pev(t, w) for t, w in ss]
                     yield {"op": "pipe", "events": evs}
@@ -665,7 +667,10 @@ def nontrivial(case, r):
 
 def run(ctx: Ctx):
     cases, reals = [], []
+    only = os.environ.get("VERIF_C19_OPS")          # debugging aid: restrict to some ops, e.g. "pipe"
     for case in itertools.chain(gen_grid(ctx), gen_random(ctx)):
+        if only and case["op"] not in only.split(","):
+            continue
         r = oracle_on_case(ctx, case)
         ctx.case_done(case, nontrivial=nontrivial(case, r))
         ctx.count("op_" + case["op"])
